@@ -117,6 +117,15 @@ CLAIMED['C12'] = dict(
     note='Partial: declaration form only (rt = Some). Outside: assignment to existing variables and the later-assignment type checks (assign_respecting_type, every-assignment, swap need the environment), struct and '
          'comparison-operator patterns, satisfying types, switch arm selection and catch (they call assign), conversion functions on strings and containers. Stubs: try_borrow(_mut)_nres, Env::insert, evaluate (defaults).',
     design='§7 C12', technique='symbolic execution of rustc MIR + SMT (z3); reference matcher evaluated symbolically; recorder stubs for the environment')
+CLAIMED['C05'] = dict(
+    text='Bounded symbolic model checking at statement level: the real `evaluate` (Sequence, If, While, For and evaluate_for, Try, Throw, Lambda, Call, Break / Continue / Return, And / Or / Coalesce, Assign, OpAssign, Chain, '
+         'List, Ident) with eval_lvalue, assign, assign_respecting_type, insert_declare, Closure::run, Env::{with_parent, try_borrow_get_var, modify_existing_var, insert}, ChainEvaluator and the real + - * builtins is executed '
+         'on the parse tree that noulith\'s own parser returns for each of ~60 programs (imported from its Debug rendering, typed by the source\'s own type definitions), in a real Env chain whose free variables x, y are symbolic '
+         'integers. Oracle: a reference interpreter of the documented rules (lexical scoping, fresh scope per call / iteration / catch clause, := refuses redeclaration, = refuses undeclared names, closures capture variables, '
+         'break / continue with counts and values, return, try / catch / throw, short-circuit operators, lambda defaults, for-yield) evaluated symbolically: every implementation path agrees with it on value, raised-or-not and printed output for all x, y.',
+    note='Partial: a fixed family of programs (their inputs are symbolic, their shape is not). Outside: switch, multi-clause for, <<-, into, eval, splat parameters, structs, the parser itself. Stubs: comparison operators (integer comparison '
+         'yielding 1/0) and print (recorder); error messages opaque; RefCell borrow flags not modelled.',
+    design='§7 C05', technique='symbolic execution of rustc MIR of the evaluator on real parse trees + SMT (z3); reference interpreter evaluated symbolically')
 NOT_APPLICABLE = {
  'C13': 'sequence library vs executable specification: the deciding content is std collections glued by one-line closures over whole sequences; not encodable as a bounded solver query over noulith code (DESIGN §9); parts decided under C08/C09/C10/C11/C14',
  'C17': 'freeze: semantic equivalence of two recursive traversals over programs; a bounded solver query cannot carry it (DESIGN §9)',
